@@ -1181,7 +1181,7 @@ def with_roles(fn, roles):
     return dataclasses.replace(fn, node=node)
 
 
-def normalise(M, fn, subst: bool = False, guards: bool = False, keep=(), comps: bool = False, ifexp: bool = False, closures: bool = False) -> ast.FunctionDef:
+def normalise(M, fn, subst: bool = False, guards: bool = False, keep=(), comps: bool = False, ifexp: bool = False, closures: bool = False, ssa: bool = False) -> ast.FunctionDef:
     """a normalised deep copy of fn.node (see module docstring)"""
     node = copy.deepcopy(fn.node)
     for _ in range(4):
@@ -1205,8 +1205,9 @@ def normalise(M, fn, subst: bool = False, guards: bool = False, keep=(), comps: 
         _inline_closures(node, [])
     if subst:
         _split_tuple_assigns(node)
-        _expand_unpack(node)
-        _version_rebinds(node)
+        if ssa:
+            _expand_unpack(node)
+            _version_rebinds(node)
         _forward_subst(node, set(keep), alias_only=(subst == "alias"))
     else:
         # only the temporaries the normaliser itself introduced for helper / closure arguments are put back (single use)
